@@ -178,6 +178,30 @@ CLAIMED = {
         "counted and skipped in the model comparison, never in the postcondition monitors); "
         "estimate_gridding_opts is covered only through C14's mapping-invariance monitor.",
    technique='Lean 4 list/ordered-field theorems (induction over widths, candidates, cell numbers) + exact-rational and recorded-call correspondence'),
+ 'C17': dict(
+   text="Proof (Lean 4, core only, structural induction over arbitrarily nested ordered "
+        "dictionaries with instances of registered classes inside): model IoT of _dict_serialize, "
+        "_nonetype_to_none, _dict_deserialize, _dict_flatten / _dict_unflatten (keys joined and "
+        "split at '>'), _dict_dearray_decomp / _dict_array_comp (structured key flags) and "
+        "save / load / convert with the back ends as identities. Theorems: de-serialise o restore-"
+        "None o serialise is the identity on well-formed values (no 'NoneType' string, user "
+        "dictionaries do not carry a registered __class__), hence load(save x) = x for HDF5; "
+        "array_comp inverts dearray_decomp given the leaf codec does, hence JSON; splitting a "
+        "joined path returns the path and un-flatten(flatten d) = d *with key order* for '>'-free, "
+        "unique keys and non-empty nested dictionaries, hence NumPy; an empty nested dictionary is "
+        "lost in .npz (negation proved with a witness); convert between any two formats preserves "
+        "the content. Tie to code: the six tree functions on random trees (depth <= 4, instances "
+        "of all 12 registered classes inside) vs the model; from_dict(to_dict(x)) = x per class; "
+        "real files: save -> load in the three formats and convert for the six pairs vs the "
+        "model's prediction, to_file / from_file, Simulation what = computed/results/all/plain "
+        "and absence of state leaking from to_file.",
+   design='§4 C17',
+   note=TB % 'c17' + "Modelled not verified: h5py / np.savez / json (identities on what they are "
+        "given; exercised on real files), the string rendering of the key flags "
+        "('__complex', '__array-<dtype>': parsed by the harness), leaf canonicalisation (scalar "
+        "kinds; arrays by dtype, shape, bytes). The root group of an .h5 file is listed by name: "
+        "the top level is compared in sorted order (Python dict equality ignores order).",
+   technique='Lean 4 structural induction over a mutual Tree/Forest model (ordered dictionaries); tree-function and real-file correspondence'),
  'C02': dict(
    text="Proof (Lean 4, over an arbitrary field K, all grid sizes/widths/coefficients/fields): the "
         "model Emg.amat of core.amat_x equals on every interior edge the assembled operator "
